@@ -37,7 +37,7 @@ T = {
     "C10": ('fault_enumeration', 'generated fake-broker scripts interpreted against the MQTT sender rules x application verdicts x callback modes x clean/persistent session x enumerated connection-fault positions; sender-side handshake model with QoS 1 barriers',
             "Scripts of PUBLISH/PUBREL (also duplicated / repeated), QoS 0/1 messages, drop+resume, a broker that loses its session and reuses ids, and an application that closes the client while its callback runs, over 1-3 ids, are generated with accept/reject verdicts; every send and receive on the client's connection is failed in turn; judged against the sender-side handshake model (every PUBLISH/PUBREL answered, exactly one accepted delivery per handshake, no ack after a rejected delivery).",
             'default callback mode for exactly-once; early mode only ordering clauses', '4 C10, 9'),
-    "C11": ("exploration", "model-based stateful testing of retained messages (rapid histories x bounded-exhaustive filter set) vs. map model + reference matcher",
+    "C11": ("exploration", "model-based stateful testing of retained messages (rapid histories x bounded-exhaustive filter set) vs. map model + reference matcher; generated publish/subscribe races behind a held backend mutex (atomicity oracle) and enumerated own-queue-full completions",
             "Histories of retained/non-retained/empty publishes, wills and subscriptions with every filter of the depth-3 exhaustive filter set are run; each SUBSCRIBE's replay is compared with the model.",
             "bounded topic universe; in-memory transport", "4 C11"),
     "C12": ('fault_enumeration', 'bounded-exhaustive termination cause x protocol state x will flags matrix, re-sampled with generated surrounding traffic; count of will publications at the backend boundary + observers',
